@@ -273,6 +273,23 @@ func runCrash(a []string) {
 						img, openLine, keys, times, probeKeys)
 				}
 			}
+			if ev.kind == "create" && ev.n > 1 && strings.HasSuffix(ev.path, ".index") {
+				// the header of a new index file written only in part (a torn log header is refused by design and by an
+				// existing test; an index file shorter than its header is rebuilt)
+				full := ev.image[ev.path]
+				for _, j := range []int64{1, 3, 7} {
+					if j >= int64(len(full)) {
+						continue
+					}
+					img := map[string][]byte{}
+					for n, b := range ev.image {
+						img[n] = b
+					}
+					img[ev.path] = full[:j]
+					observeImage(root, fmt.Sprintf("%s@%d.h%d", c.name, k+1, j), hdr+fmt.Sprintf(" torn=%d", j),
+						img, openLine, keys, times, probeKeys)
+				}
+			}
 			if ev.kind == "write" && ev.n > 1 {
 				// torn variants of this append
 				full := ev.image[ev.path]
